@@ -42,7 +42,7 @@ func init() {
 	}
 	registerGen("C08", "conformance corpus (families, every rule set of G(2,2,2,<=2) and G(1,2,3,<=2), fixed-stride selection of the tier classes) x {go, go -u, go -o, go -o -u, typescript} x all strings up to the bound: verdict class, reduction sequence and value must be pairwise equal; non-trivial = grammar with at least one accepted string; distinct = distinct rule sets", common)
 	registerGen("C07", "corpus grammars x union-field assignments (all string, all int, each single symbol switched to int / to untagged) x action shapes (all $i, only $1, only $n, no action, alternately assigning/not assigning $$, plain `$$ = $1` copies sharing one action text) x all accepted strings up to the bound x {go, go -o -u, typescript}: the value returned by Parser() must equal bottom-up evaluation of the harness-chosen actions over the parser's own (derivation-checked) reductions; token values encode character and position, rule values encode rule number and argument order, so a wrong slot or field changes the result; non-trivial = (grammar, assignment, shape) with at least one accepted string", common)
-	registerGen("C17", "corpus x Go variants (global and -o, packed and -u) with IsTrace = true x all strings up to the bound (rejected ones up to the error): the stdout lines must be, in order, exactly the lines predicted from the model run and the SPECIFICATION's rule text and symbol names (one `Shift X, push state q` per shift and per goto, one `look ahead L, use Reduce:A -> alpha, go to state q` per reduction), and the reductions named must be the reductions executed by the actions", common)
+	registerGen("C17", "corpus x Go variants (global and -o, packed and -u, and the default parser generated together with the -g graph) with IsTrace = true x all strings up to the bound (rejected ones up to the error): the stdout lines must be, in order, exactly the lines predicted from the model run and the SPECIFICATION's rule text and symbol names (one `Shift X, push state q` per shift and per goto, one `look ahead L, use Reduce:A -> alpha, go to state q` per reduction), and the reductions named must be the reductions executed by the actions", common)
 }
 
 // c07Corpus expands a part of the corpus with tag assignments and action shapes.
